@@ -120,9 +120,9 @@ opt-level = 3
         shutil.copy(lock, os.path.join(out, "Cargo.lock"))
     dep = """
 [dependencies]
-mc = { path = "../../mc" }
+mc = { path = "../../mc"%s }
 microscpi = { path = "../../../subject/microscpi" }
-"""
+""" % (", default-features = false" if os.environ.get("VERIF_NO_DIRECT") else "")
     # accept crates
     buckets = [[] for _ in range(N_ACC)]
     for n, a in enumerate(plan["accept"]):
